@@ -92,6 +92,10 @@ def monitor_sched(case_lines, out_lines, S, F):
     last_ld, writes, aba_inserts = {}, {}, []   # (tid, loc) -> index of the thread's last load; loc -> [(index, tid)]
     aba_unlinks = []
     last_cursor = {}   # thread -> the value its latest load of the cursor returned
+    try:
+        doff_ = int(vlib.parse_obs(out_lines[0]).get("doff", "0")) if out_lines else 0
+    except ValueError:
+        doff_ = 0
     rewound_ = any(x and x[0] in ("rewind", "clear") for ops_ in progs.values() for x in ops_) or any(x and x[0] in ("rewind", "clear") for x in pre_ops)
     di0 = None
     try:
@@ -190,6 +194,9 @@ def monitor_sched(case_lines, out_lines, S, F):
                     V.append(("C15", "wrong-value", f"t={tid} {' '.join(op)} returned {o.get('val')}, the bytes decode to {o.get('ref')}"))
             if op[0].startswith("alloc_") and r == "ok":
                 off, cap = int(o["off"]), int(o["cap"])
+                if cap > 0 and off < doff_:
+                    for p_ in ("C02", "C01", "C04"):
+                        V.append((p_, "below-data-offset", f"t={tid} {' '.join(op)} got [{off},{off+cap}), which starts below data_offset() = {doff_} (inside the reserved prefix / the header)"))
                 if cap > 0:
                     for h2, (o2, c2) in list(live.items()) + [(None, d) for d in dead]:
                         if off < o2 + c2 and o2 < off + cap:
